@@ -34,6 +34,17 @@ PostOK == TLCGet(1) = TRUE
 Mark(name) == PrintT(<<"FAIL", ToJson([tid |-> tid, clause |-> name])>>)
 Chk(name, cond) == cond \/ (Mark(name) /\ FALSE)
 
+\* the declarative properties of Ledger, wrapped so that a rejected trace names its clause and trace id
+TEveryUnitOnce       == Chk("every_unit_once", EveryUnitOnce)
+TUnitVotesConserved  == Chk("feed_votes_conserved", UnitVotesConserved)
+TConservation        == Chk("group_conservation", Conservation)
+TLevelsSumToFeed     == Chk("level_sums_to_feed", LevelsSumToFeed)
+TNoKeyLost           == Chk("no_key_lost", NoKeyLost)
+TReportingIsModelled == Chk("reporting_is_modelled", ReportingIsModelled)
+TEligibility         == Chk("eligibility", Eligibility)
+TLevelsAgree         == Chk("levels_agree", LevelsAgree)
+TGroupFloors         == Chk("group_floors", GroupFloors)
+
 ---------------------------------------------------------------------------
 (* C01 *)
 ObsUnitTable ==
